@@ -715,6 +715,8 @@ func (m *Message) UpdateID(newID MessageID) error {
 			if nodeInt.hasParentBus() {
 				nodeInt.parentBus.messageStaticCANIDs.remove(m.staticCANID)
 			}
+
+			nodeInt.sentMessageIDs.add(newID, m.entityID)
 		} else {
 			nodeInt.sentMessageIDs.modifyKey(m.id, newID, m.entityID)
 		}
